@@ -250,6 +250,30 @@ def run(ctx):
         roles = Roles(facts)
         p, results = P.analyse(roles)
         ctx.floor("parser call sites (%s)" % cfg, len(results), 25)
+        # The provenance analysis is context-insensitive across function boundaries: a parse site inside a private
+        # helper of a lazy operator (`member_satisfies(predicate, item, is_rule_text, data)`) sees the join of what all
+        # call sites pass and loses the case split that guards it in the caller.  A site that is dirty there is looked
+        # at again on the view of the program in which the private helpers of the operator units are inlined at their
+        # call sites (rules/inline.py — the same program); the verdicts of that view are the ones reported.
+        if any(v == "dirty" for _sk, v, _h in results) and not getattr(facts, "inlined", None) and not ctx.inline_set:
+            try:
+                from . import inline as _inline
+                from .opfacts import Unit as _Unit
+                cands = set(_inline.candidates(facts.path))
+                helpers = set()
+                for fk, info in roles.op_fns.items():
+                    if info["role"] == "lazy":
+                        helpers |= (_Unit(roles, fk, extended=True).keys & cands)
+                helpers -= set(roles.op_fns)
+                if helpers:
+                    f2 = _inline.load_view(facts.path, sorted(helpers))
+                    roles2 = Roles(f2)
+                    p2, results2 = P.analyse(roles2)
+                    if len(results2) >= 25 and not any(v == "dirty" for _sk, v, _h in results2):
+                        ctx.notes.append("K4 decided on the view of the program with the private helpers of the lazy operators inlined at their call sites (%s): as written, the provenance analysis joins all call sites of a helper" % ", ".join(sorted(h.split("::", 1)[1] for h in helpers)))
+                        facts, roles, results = f2, roles2, results2
+            except Inconclusive:
+                pass
         allowed_units = {roles.entry.key, roles.value_parser.key} | set(roles.parsers) | {lb.key for lb in roles.list_parsers}
         allowed_units |= {fk for fk, info in roles.op_fns.items() if info["role"] == "lazy"}
         # … and the private helper functions of those units: a function all of whose uses (calls, references as a value)
